@@ -104,6 +104,8 @@ def a2b_l(cs, lengthinbits):
     """
     # We call bytes() again for Python 2, to ensure literals are using future's
     # Python 3-compatible variant.
+    if translate(cs, identitytranstable, chars):
+        raise ValueError("not a base62 string: %r" % (cs,))
     cs = [c for c in reversed(bytes(translate(cs, c2vtranstable)))] # treat cs as big-endian -- and we want to process the least-significant c first
 
     value = 0
@@ -119,5 +121,7 @@ def a2b_l(cs, lengthinbits):
         result_bytes.append(value % 256)
         value //= 256
         numvalues //= 256
+    if value:
+        raise ValueError("base62 string encodes a value that does not fit in %d bits" % (lengthinbits,))
 
     return bytes([b for b in reversed(result_bytes)]) # make it big-endian
